@@ -133,14 +133,21 @@ def run(pid, tier, selftest, assumptions):
     results = pc.run_loads(binp, [d for d, m in zip(docs, meta) if "_result" not in m], pid, want=("write", "cycle", "file") if pid == "C01" else ("write", "cycle"))
     results = results + [m.pop("_result") for m in meta if "_result" in m]
     events, idx = [], []
+    nbad = 0
     for i, r in enumerate(results):
         if "panic" in r or "write_panic" in r:
             rep.violation(f"layout:panic:{meta[i]['pat']['fam']}", f"panic: {r.get('panic') or r.get('write_panic')}", {"kind": "doc", "meta": meta[i], "text": docs[i][0]})
             continue
+        # the documents are valid by construction (and load cleanly on the pinned tree): a refusal or a diagnostic means
+        # that the library reads something else than what the document says
         if not r.get("ok"):
-            vlib.tool_error(f"laid-out document does not load strictly ({meta[i]}): {r.get('e')}\n{docs[i][0][:600]}")
+            nbad += 1
+            rep.violation(f"layout:ValidDocumentRefused:{meta[i]['pat']['fam']}", f"a valid document is refused ({meta[i]['e']}, {meta[i]['pat']}): {r.get('e')}", {"kind": "doc", "meta": meta[i], "text": docs[i][0]})
+            continue
         if r.get("diags") and meta[i]["pat"]["fam"] != "value":
-            vlib.tool_error(f"laid-out document loads with diagnostics ({meta[i]}): {r['diags'][:2]}")
+            nbad += 1
+            rep.violation(f"layout:ValidDocumentDiagnosed:{meta[i]['pat']['fam']}:{r['diags'][0][0]}", f"a valid document loads with diagnostics ({meta[i]['e']}, {meta[i]['pat']}): {r['diags'][:2]}", {"kind": "doc", "meta": meta[i], "text": docs[i][0]})
+            continue
         events.append(layoutlib.doc_event(docs[i][0], r))
         idx.append(i)
     p = os.path.join(vlib.scratch(), f"layout_events_{pid}.ndjson")
